@@ -119,6 +119,12 @@ func registerVerifAPI(e *Engine) {
 		in.observes = append(in.observes, observe{a[0].(Str).S, a[1].(Iface)})
 		return nil
 	})
+	// TakeTime: an application callback or listener "takes its time": every other goroutine
+	// runs until it blocks, then the callback continues
+	v("TakeTime", func(in *Interp, fr *frame, fn *ssa.Function, a []Val) Val {
+		in.quiesce()
+		return nil
+	})
 	v("Quiesce", func(in *Interp, fr *frame, fn *ssa.Function, a []Val) Val {
 		in.quiesce()
 		return nil
